@@ -282,12 +282,18 @@ def run_cases(binary, cases, tmo=20, shards=None, env=None, keep=None, wrapper=N
 # known findings
 # ----------------------------------------------------------------------------------------------
 def load_known(pid):
-    path = os.path.join(VERIF, "known_findings.json")
-    if not os.path.exists(path):
-        return []
-    with open(path) as f:
-        data = json.load(f)
-    return [x for x in data.get("findings", []) if x.get("property") == pid]
+    out = []
+    paths = [os.path.join(VERIF, "known_findings.json")]
+    kd = os.path.join(VERIF, "known_findings.d")
+    if os.path.isdir(kd):
+        paths += sorted(os.path.join(kd, x) for x in os.listdir(kd) if x.endswith(".json"))
+    for path in paths:
+        if not os.path.exists(path):
+            continue
+        with open(path) as f:
+            data = json.load(f)
+        out += [x for x in data.get("findings", []) if x.get("property") == pid]
+    return out
 
 
 def _match(sig, pat):
